@@ -274,7 +274,7 @@ def run_case(ctx, case):
 
 def campaign(ctx):
     from hypothesis import given, settings, seed, HealthCheck, Phase, Verbosity
-    nprog = {"quick": 4, "thorough": 40}[ctx.tier]
+    nprog = {"quick": 8, "thorough": 40}[ctx.tier]
     classes_all = list(CLASSES)
     state = {"n": 0}
 
